@@ -440,14 +440,20 @@ def propStep (acc : List PropIr × St) (m : Node) : List PropIr × St :=
       { key := pname, types := [some "Function"], required := !optional }, st)
   | _ => (irs, st)
 
+/-- the `type:` expression: a single constructor (or `null`) as such, several as an array -/
+def typeExprOf (types : List RT) : Node :=
+  match types with
+  | [t] => rtExpr t
+  | ts => nArray (ts.map fun t => nArg (rtExpr t))
+
+/-- `is_function_prop`: the emitted `type` is exactly `Function` (the only case in which Vue does not call a function default) -/
+def isExactlyFunction (types : List RT) : Bool := types == [some "Function"]
+
 /-- one entry of the emitted props object (`build_props_type`, second half) -/
 def emitProp (defaults : Option (List (Node × Node × Bool))) (ir : PropIr) : Node :=
   let types := emittedTypes ir.types
-  let isFunctionProp := types.contains (some "Function")
-  let tyExpr :=
-    match types with
-    | [t] => rtExpr t
-    | ts => nArray (ts.map fun t => nArg (rtExpr t))
+  let isFunctionProp := isExactlyFunction types
+  let tyExpr := typeExprOf types
   let inner := [nKV (nIdentName "type") tyExpr, nKV (nIdentName "required") (nBool ir.required)]
   let inner :=
     match defaults with
